@@ -7,7 +7,6 @@ import (
 	"math/big"
 	"testing"
 
-	"github.com/btcsuite/btcd/btcec/v2"
 	"github.com/btcsuite/btcd/btcec/v2/ellswift"
 	"github.com/btcsuite/btcd/v2transport"
 	"pgregory.net/rapid"
@@ -17,10 +16,7 @@ import (
 	"verif/internal/model/secp"
 )
 
-var (
-	two256m1 = new(big.Int).Sub(new(big.Int).Lsh(big.NewInt(1), 256), big.NewInt(1))
-	pMinus1  = new(big.Int).Sub(secp.P, big.NewInt(1))
-)
+var two256m1 = new(big.Int).Sub(new(big.Int).Lsh(big.NewInt(1), 256), big.NewInt(1))
 
 // gen256 draws a 256-bit integer with the field boundaries over-represented.
 func gen256(t *rapid.T, label string) *big.Int {
@@ -363,5 +359,3 @@ func TestV1Detect(t *testing.T) {
 		}
 	})
 }
-
-var _ = btcec.S256
